@@ -447,6 +447,18 @@ def applyOp (st : St) (seq : String) (ctx : Ctx) (opT : OpT) (pis : List (Option
          | some r' => if ok && norm r' == norm r && (m.map norm) != some (norm r) then some r' else m
          | none => m)
       | _ => m
+    -- deposit / withdraw at rate zero are also accepted in their repaired form (D35, notes/C18.md: the locker keeps the flag
+    -- `BlockHeight = 0`)
+    let m := match opT with
+      | .deposit _ a b i _ _ | .withdraw _ a b i _ _ =>
+        (match m, Store.get p.collk (a, b) with
+         | some s1, some c =>
+           if c.lsr = 0 then
+             let s2 := { s1 with ltime := Store.put s1.ltime i (0, ctx.now) }
+             if ok && norm s2 == norm r && norm s1 != norm r then some s2 else m
+           else m
+         | _, _ => m)
+      | _ => m
     let dOutcome := if m.isSome != ok then [s!"DIFF\t{seq}\toutcome model={if m.isSome then "ok" else "rejected"} impl={outcome}"] else []
     let expect := if ok then m.getD p else p     -- a rejected message must leave the books untouched
     let dState := if norm expect == norm r then [] else
